@@ -35,10 +35,22 @@ BoolStr == {"bool_true_str", "bool_false_str"}
 OtherStr == {"empty_str", "garbage_str", "token_str", "tmpl_expr", "tmpl_brace", "enum_member", "enum_member_upper",
              "enum_nonmember", "dev_name", "dev_unknown", "hex_str", "color_name", "color_hex", "csv_int3", "csv_int4",
              "gain_db_str"}
+(* NEAR-MISS inputs: strings obtained from a VALID representative of a string-parsed value type (the base)    *)
+(* by one mutation that leaves the grammar of the base: leading garbage (pre), trailing garbage (suf), one or   *)
+(* a few characters / elements too many (long), too few (short), one character replaced by one outside the     *)
+(* alphabet (sub).  hex6 / hex8 = hex colour, cname = named colour, csv3 = "r, g, b", time = number + unit      *)
+(* suffix, hexb = hex byte, gaindb = "-3db", tok = "(token)".  The driver builds them (drivers/c12.py           *)
+(* near_miss) and checks with recognisers of its own that the mutant denotes no number / time / bool / member.  *)
+NMBases == {"hex6", "hex8", "cname", "csv3", "int", "float", "bool", "time", "enum", "dev", "hexb", "gaindb", "pow2", "tok"}
+NMMuts == {"pre", "suf", "long", "short", "sub"}
+NM(b, mu) == "nm_" \o b \o "_" \o mu
+NMOf(b) == {NM(b, mu) : mu \in NMMuts}
+NearMiss == UNION {NMOf(b) : b \in NMBases}
+NMElem == {NM("hex6", "long"), NM("int", "suf"), NM("time", "suf"), NM("enum", "suf")}
 ScalarClasses == NoneLike \cup BoolVals \cup BoolStr \cup IntClasses \cup FloatFinite \cup NanClasses \cup InfClasses
-                 \cup IntStr \cup FloatStr \cup OtherStr \cup TimeClasses
+                 \cup IntStr \cup FloatStr \cup OtherStr \cup TimeClasses \cup NearMiss
 ElemClasses == {"none", "empty_str", "true", "int_pos", "int_neg", "float_frac", "num_str_int", "garbage_str",
-                "bool_true_str", "t_s_l_w", "enum_member", "enum_nonmember", "dev_name", "token_str", "float_nan"}
+                "bool_true_str", "t_s_l_w", "enum_member", "enum_nonmember", "dev_name", "token_str", "float_nan"} \cup NMElem
 ListShapes == {"list2", "nested", "list_empty"}
 DictShapes == {"dict_str", "dict_int", "dict_numstr", "dict_dev"}
 ContainerShapes == ListShapes \cup DictShapes \cup {"csv", "tuple3"}
@@ -93,9 +105,18 @@ NoneAcc == Acc({"NoneType"}, {"none"}, FALSE)
 (* which have no None value at all.  A None result anywhere else is ill-typed.                        *)
 (* c = [sh, ec] is the element's class, ir the relation of a numeric input to the declared range.   *)
 OutOfRange(v, ir) == v.rg /\ ir \in {"below", "above", "nan"}
-JudgeScalar(v, ec, ir) ==
-    LET vc == v.vc IN
-    IF v.tok /\ ec = "token_str" THEN Acc({"RuntimeToken"}, {"tok"}, FALSE)
+(* A near-miss denotes no number, time, boolean, token ...: every validator treats it like any other string that    *)
+(* is not a value of its type (garbage_str) - the numeric / time / bool / pow2 validators MUST reject it - and a   *)
+(* near-miss of a member / of a device name is by construction not a member / not a device.  Where a validator    *)
+(* MAY accept a string (colours, gain, hex, templates ...) the VALUE relations of the verdict decide: c255 / k01    *)
+(* (every colour component within 0..255 / 0..1) are judged by ConfigTypesTrace on the logged components.         *)
+ValueRels == {"c255", "k01"}
+JudgeScalar(v, ec0, ir) ==
+    LET vc == v.vc
+        ec == IF ec0 \in NearMiss THEN "garbage_str" ELSE ec0 IN
+    IF vc = "enum" /\ ec0 \in NMOf("enum") THEN Reject
+    ELSE IF vc = "machine" /\ ec0 \in NMOf("dev") THEN Reject
+    ELSE IF v.tok /\ ec = "token_str" THEN Acc({"RuntimeToken"}, {"tok"}, FALSE)
     ELSE IF ec \in NoneLike THEN
         (CASE vc = "bool_int" -> Acc({"int"}, {"bfalse"}, FALSE)
            [] vc \in {"subconfig", "dict"} -> Acc({"dict"}, {}, FALSE)
@@ -131,8 +152,8 @@ JudgeScalar(v, ec, ir) ==
       [] vc = "int_from_hex" -> Acc({"int"}, {"hex"}, FALSE)
       [] vc = "kivycolor" -> IF ec \in {"empty_str", "false", "int_zero", "float_zero"} THEN Acc({"NoneType"}, {"none"}, FALSE)
                              ELSE IF ec = "token_str" THEN Acc({"str"}, {"lower"}, FALSE)
-                             ELSE Acc({"list"}, {"k4"}, FALSE)
-      [] vc = "color" -> Acc({"tuple"}, {"c3"}, FALSE)
+                             ELSE Acc({"list"}, {"k4", "k01"}, FALSE)
+      [] vc = "color" -> Acc({"tuple"}, {"c3", "c255"}, FALSE)      \* an RGB triple of ints, every component within 0..255
       [] vc = "gain" -> IF ir = "nan" THEN Reject ELSE Acc({"float"}, {}, FALSE)    \* clamped to 0..1: the range is checked on the result
       [] vc = "pow2" -> IF ec \in Numeric THEN Acc({"int", "str", "float", "bool"}, {"p2"}, FALSE) ELSE Reject
 
@@ -147,8 +168,8 @@ JudgeCsv(v, ec) ==
       [] vc \in TemplateV -> Acc(DeclTypes(vc), {}, FALSE)
       [] vc = "list" -> Acc({"list"}, {}, FALSE)
       [] vc = "int_from_hex" -> Acc({"int"}, {"hex"}, FALSE)
-      [] vc = "kivycolor" -> IF ec = "token_str" THEN Acc({"str"}, {"lower"}, FALSE) ELSE Acc({"list"}, {"k4"}, FALSE)
-      [] vc = "color" -> Acc({"tuple"}, {"c3"}, FALSE)
+      [] vc = "kivycolor" -> IF ec = "token_str" THEN Acc({"str"}, {"lower"}, FALSE) ELSE Acc({"list"}, {"k4", "k01"}, FALSE)
+      [] vc = "color" -> Acc({"tuple"}, {"c3", "c255"}, FALSE)
       [] vc = "gain" -> Acc({"float"}, {}, FALSE)
       [] OTHER -> Reject
 
@@ -180,6 +201,7 @@ Elems(c) ==
                [] c.ec = "csv_int3" -> Es(<<Sc("num_str_int"), Sc("num_str_int"), Sc("num_str_int")>>)
                [] c.ec = "csv_int4" -> Es(<<Sc("num_str_int"), Sc("num_str_int"), Sc("num_str_int"), Sc("num_str_int")>>)
                [] c.ec = "tmpl_brace" -> Opaque
+               [] c.ec \in NMOf("csv3") -> Opaque      \* "r, g, b, x": a list is split at the commas - how many elements is not prescribed
                [] OTHER -> Es(<<c>>))
       [] c.sh = "empty_list" -> Es(<<>>)
       [] c.sh = "list2" -> Es(<<Sc(c.ec), Sc(c.ec)>>)
@@ -201,7 +223,7 @@ JudgeSeq(v, c, ir, cty, isSet) ==
     ELSE LET js == [i \in DOMAIN es |-> JudgeElem(v, es[i], ir)] IN
          IF \E i \in DOMAIN js : js[i].o = "reject" THEN Reject
          ELSE IF \E i \in DOMAIN js : js[i].o = "any" THEN [Acc({cty}, {}, FALSE) EXCEPT !.ety = ElemTypes(v)]
-         ELSE [Acc({cty}, IF isSet THEN {} ELSE InterAll({js[i].rels : i \in DOMAIN js}),
+         ELSE [Acc({cty}, IF isSet THEN InterAll({js[i].rels : i \in DOMAIN js}) \cap ValueRels ELSE InterAll({js[i].rels : i \in DOMAIN js}),
                    ~isSet /\ \A i \in DOMAIN js : js[i].time)
                EXCEPT !.ety = UNION {js[i].ty : i \in DOMAIN js},
                       !.n = IF isSet THEN -1 ELSE Len(es)]
@@ -236,7 +258,10 @@ JudgeDefault(it, kv, v, dcl) ==
            [] it = "list" -> [Acc({"list"}, {}, FALSE) EXCEPT !.n = 0]
            [] it = "set" -> [Acc({"set"}, {}, FALSE) EXCEPT !.n = 0]
            [] OTHER -> [Acc({"dict"}, {}, FALSE) EXCEPT !.n = 0])
-    ELSE (CASE it = "single" -> Acc(DeclTypes(v.vc) \cup (IF v.tok THEN {"RuntimeToken"} ELSE {}), {}, v.vc \in TimeV)
+    ELSE (CASE it = "single" -> Acc(DeclTypes(v.vc) \cup (IF v.tok THEN {"RuntimeToken"} ELSE {}),
+                                   \* a default is validated like a provided value: a default colour is a colour
+                                   IF v.tok THEN {} ELSE IF v.vc = "color" THEN {"c3", "c255"} ELSE IF v.vc = "kivycolor" THEN {"k4", "k01"} ELSE {},
+                                   v.vc \in TimeV)
             [] it = "list" -> [Acc({"list"}, {}, FALSE) EXCEPT !.ety = DeclTypes(v.vc) \cup (IF v.tok THEN {"RuntimeToken"} ELSE {})]
             [] it = "set" -> [Acc({"set"}, {}, FALSE) EXCEPT !.ety = DeclTypes(v.vc)]
             [] it = "dict" -> [Acc({"dict"}, {}, FALSE) EXCEPT !.kty = DeclTypes(kv), !.ety = DeclTypes(v.vc)]
@@ -264,6 +289,10 @@ ExpectedMs(fn, suf, vm) ==
 SubMs(fn, suf) == (suf # "" /\ UnitMs[suf] = 1) \/ (suf = "" /\ fn = "ms")
 JudgeTime(c) == [o |-> "accept", must |-> ~SubMs(c.fn, c.suf) \/ c.vm % 1000 = 0, ms |-> ExpectedMs(c.fn, c.suf, c.vm)]
 
+(* near-miss time strings given to Util.string_to_ms / string_to_secs directly: case = [kind |-> "timenm", fn, suf, mut]; *)
+(* suf = the unit suffix of the valid representative ("" = a bare number).  No time corresponds: reject.              *)
+JudgeTimeNM(c) == Reject
+
 (* section level: case = [kind |-> "section", mode, allow] *)
 JudgeSection(c) ==
     CASE c.mode = "missing" -> [o |-> "accept", need |-> {"allp"}]                 \* every spec key present (defaults filled in)
@@ -288,7 +317,9 @@ IsItemCase(c) == /\ c.it \in ItemTypes /\ c.vc \in VOf(c.it) /\ [tok |-> c.tok, 
                  /\ In(c.sh, c.ec) \in Inputs /\ c.ir \in IR(c.rg, c.sh, c.ec) /\ c.dcl \in DC(c.sh)
 TimeCases == {[kind |-> "time", fn |-> f, suf |-> s, vm |-> x] : f \in {"ms", "secs"}, s \in Suffixes \cup {""}, x \in TimeVals}
 SectionCases == {[kind |-> "section", mode |-> m, allow |-> a] : m \in {"missing", "unknown", "provided"}, a \in BOOLEAN}
+TimeNMCases == {[kind |-> "timenm", fn |-> f, suf |-> s, mut |-> mu] : f \in {"ms", "secs"}, s \in Suffixes \cup {""}, mu \in NMMuts}
 Judge(c) == CASE c.kind = "item" -> JudgeItem(c) [] c.kind = "time" -> JudgeTime(c) [] c.kind = "section" -> JudgeSection(c)
+              [] c.kind = "timenm" -> JudgeTimeNM(c)
 
 NoCase == [kind |-> "none"]
 Pick(c) == /\ cur' = c /\ verdict' = Judge(c) /\ act' = [op |-> "judge", kind |-> c.kind]
@@ -299,13 +330,14 @@ ItemCase(it, vc, p, k, i, r, d) == [kind |-> "item", it |-> it, vc |-> vc, tok |
 Next == /\ cur.kind = "none"
         /\ \/ \E it \in ItemTypes : \E vc \in VOf(it) : \E p \in VP(vc) : \E k \in KV(it) : \E i \in Inputs :
                  \E r \in IR(p.rg, i.sh, i.ec) : \E d \in DC(i.sh) : Pick(ItemCase(it, vc, p, k, i, r, d))
-           \/ \E c \in TimeCases \cup SectionCases : Pick(c)
+           \/ \E c \in TimeCases \cup SectionCases \cup TimeNMCases : Pick(c)
 Spec == Init /\ [][Next]_vars
 
 ------------------------------------------------------------------------------
 (* design checks *)
 AllTypeNames == UNION {DeclTypes(vc) : vc \in VClasses} \cup {"NoneType", "RuntimeToken", "set"}
 AllRels == {"none", "tok", "ident", "lower", "numtr", "numeq", "btrue", "bfalse", "member", "dev", "complete", "known", "hex", "k4", "c3", "p2"}
+           \cup ValueRels
 \* Judge is defined for every case and yields a well-formed verdict
 Total == cur.kind # "none" =>
     \/ verdict.o \in {"reject", "any"}
@@ -334,6 +366,30 @@ Consistent == (cur.kind # "none" /\ cur.kind = "item") =>
     /\ (cur.vc = "enum" /\ cur.ec = "enum_nonmember" /\ Scalarish(cur) /\ cur.sh # "list_empty" /\ cur.it \in {"single", "list", "set"}
         => verdict.o = "reject")
     /\ (cur.sh = "default" /\ cur.dcl = "required" => verdict.o = "reject")
+\* a colour validator never hands out a colour without the component-range obligation: whatever the input (valid, garbage,
+\* near-miss), an accepted single colour / every element of an accepted colour list or set / every dict value is an RGB triple
+\* (RGBA list for kivycolor) whose components are judged against 0..255 (0..1)
+ColourSound == (cur.kind # "none" /\ cur.kind = "item" /\ verdict.o = "accept" /\ cur.vc \in {"color", "kivycolor"}) =>
+    LET need == IF cur.vc = "color" THEN {"c3", "c255"} ELSE {"k4", "k01"}
+        cty == IF cur.vc = "color" THEN "tuple" ELSE "list" IN
+    /\ (cur.it = "single" /\ cty \in verdict.ty /\ "RuntimeToken" \notin verdict.ty => need \subseteq verdict.rels)
+    /\ (cur.it \in {"list", "set"} /\ verdict.ety = {cty} /\ Scalarish(cur) /\ ~(cur.sh = "scalar" /\ cur.ec \in NMOf("csv3") \cup {"tmpl_brace"})
+            => need \cap ValueRels \subseteq verdict.rels)
+    /\ (cur.it = "dict" /\ cur.sh \in DictShapes /\ verdict.ety = {cty} => need \subseteq verdict.rels)
+\* a near-miss is never a value of a numeric / time / boolean / power-of-two type, nor a member of the enum or a device it was
+\* derived from: these validators must reject it wherever ONE element is validated (single items, elements of lists and sets)
+StrictNM(vc, ec) == \/ vc \in {"int", "float", "num", "bool", "bool_int", "ms", "secs", "pow2"}
+                    \/ vc = "enum" /\ ec \in NMOf("enum")
+                    \/ vc = "machine" /\ ec \in NMOf("dev")
+NearMissSound ==
+    /\ (cur.kind # "none" /\ cur.kind = "item" /\ cur.ec \in NearMiss /\ StrictNM(cur.vc, cur.ec)
+            /\ \/ cur.it = "single" /\ cur.sh = "scalar"
+               \/ cur.it \in {"list", "set"} /\ cur.sh \in {"scalar", "list2", "csv"} /\ cur.ec \notin NMOf("csv3")
+               \/ cur.it \in {"dict", "event_handler"} /\ cur.sh \in DictShapes
+        => verdict.o = "reject")
+    /\ (cur.kind # "none" /\ cur.kind = "item" /\ cur.ec \in NearMiss /\ verdict.o = "accept" /\ cur.it = "single"
+        => "RuntimeToken" \notin verdict.ty)                      \* "(tok" / "tok)" / "(tok)x" is not a token
+    /\ (cur.kind # "none" /\ cur.kind = "timenm" => verdict.o = "reject")
 \* every accepted unit suffix evaluates to value * unit; time strings given to time validators carry the time relation
 TimeSemantics ==
     /\ (cur.kind # "none" /\ cur.kind = "time" /\ cur.suf # "" /\ cur.vm % 1000 = 0 /\ cur.vm >= 0
